@@ -431,6 +431,7 @@ def run(ctx):
         "read faults are offered at the first reads of each request and at the retry limit",
     ]
     coverage["rule"] += ("; ordinary queries beyond the model board's own (QE, QN, QR, QU and look-alikes of the seven no-OK names, with and without an argument) alone, before QB, and between V and QM; faults with every class and message text pyserial's own read() / write() can raise")
+    coverage["rule"] += ('; boards behind ports that report a read timeout of None, 0, 0.05, 1.5, 2, 5, 60 s (3 first x 3 second requests)')
     return {"part": part, "coverage": coverage, "assumptions": assumptions}
 
 
